@@ -697,6 +697,9 @@ func (a *Analysis) PredSpec() *report.RuleResult {
 								}
 								minOff, maxOff := int64(0), int64(0)
 								cev.Reads = func(base string, index int) {
+									if base != "data" && !strings.HasSuffix(base, ".data") {
+										return // a lookup table, not the input
+									}
 									off := int64(index) - sc.cursor
 									if off < minOff {
 										minOff = off
